@@ -245,8 +245,11 @@ package policy
 //@   requires 0 <= stmtsSize(statements) && (forall j int :: 0 <= j && j < len(statements) ==> statements[j] != nil && wfStmt(statements[j]) && 0 <= stmtSize(statements[j]) && stmtSize(statements[j]) < stmtsSize(statements))
 //@   use seq_len, seq_empty, seq_snoc, list_of, string_node
 //@   ensures [C14] shape: result1 == nil ==> result0 != nil && nodeKind(result0) == datamodel.Kind_List && listLen(result0) == len(statements) && (forall j int :: 0 <= j && j < len(statements) ==> nodeKind(listElem(result0, j)) == datamodel.Kind_List && nodeStr(listElem(listElem(result0, j), 0)) == stmtKind(statements[j]))
+//@   ensures [C14] faithful: result1 == nil ==> (forall j int :: {statements[j]} 0 <= j && j < len(statements) ==> reprs(statements[j], listElem(result0, j)))
 //@   ensures [C09] total: true
+//@   assigns [C20] nothing
 //@   decreases stmtsSize(statements), 1
+//@   loop 0: invariant forall j int :: {seqAt(assembled(listBuilder), j)} 0 <= j && j < k ==> reprs(statements[j], seqAt(assembled(listBuilder), j))
 //@   loop 0: invariant 0 <= k && k <= len(statements) && listBuilder != nil && listBuilder == builderList(list) && isListBuilder(list) && seqLen(assembled(listBuilder)) == k
 //@   loop 0: invariant forall j int :: {seqAt(assembled(listBuilder), j)} 0 <= j && j < k ==> nodeKind(seqAt(assembled(listBuilder), j)) == datamodel.Kind_List && nodeStr(listElem(seqAt(assembled(listBuilder), j), 0)) == stmtKind(statements[j])
 //@           decreases len(statements) - k
@@ -255,6 +258,9 @@ package policy
 //@   given forall s Statement :: {wfStmt(s)} wfStmt(s) ==> wfStmtUnfold(s)
 //@   use seq_len, seq_empty, seq_snoc, list_of, string_node
 //@   ensures [C14] shape: result1 == nil ==> result0 != nil && nodeKind(result0) == datamodel.Kind_List && nodeStr(listElem(result0, 0)) == stmtKind(statement) && (listLen(result0) == 2 || listLen(result0) == 3)
+//@   retgiven result1 == nil ==> reprs(statement, result0) == reprsDef(statement, result0)
+//@   assigns [C20] nothing
+//@   ensures [C14] faithful: result1 == nil ==> reprs(statement, result0)
 //@   ensures [C09] total: true
 //@   decreases stmtSize(statement), 0
 //@
